@@ -222,7 +222,7 @@ def one_run(run, tier, seed, bin_hash):
                         hf.write(l.strip() + "\n"); ncorpus += 1
         hf.flush()
         if t.get("explore"):
-            r = subprocess.run([MODELRUN, "explore", prim, cfg, str(t["explore"])], stdout=hf, stderr=subprocess.PIPE, text=True)
+            r = subprocess.run([MODELRUN, run.get("explore_cmd", "explore"), prim, cfg, str(t["explore"])], stdout=hf, stderr=subprocess.PIPE, text=True)
             try:
                 stats = json.loads(r.stderr.strip().splitlines()[-1])
             except Exception:
@@ -440,6 +440,17 @@ def main():
             import monitors
             failing = monitors.search(prop, spec, corr, tier, seed)
         except Exception as e:  # the search is best effort
+            failing = None
+            violations.append(dict(kind="search-error", detail=repr(e)))
+
+    if violations and failing is None and spec.get("monitor") and corr["runs"]:
+        # the exploration is model-guided: where the implementation has silently diverged, the
+        # failing continuation may only have been executed after a shorter path on which it had
+        # not.  Continue the mismatching histories themselves (any observable) and let the monitor decide.
+        try:
+            import monitors
+            failing = monitors.followup(prop, spec, corr, tier, seed, all_keys=True)
+        except Exception as e:
             failing = None
             violations.append(dict(kind="search-error", detail=repr(e)))
 
